@@ -11,7 +11,7 @@ globals().update(
             # circuit-level oracles only: C20 speaks about circuits; node-level comparisons across classes are measured, not judged
             ("harness.agents.c20_pairs", 3000, 20000, {"eq_never_raises", "eq_symmetric", "eq_reflexive", "equal_pair_has_same_declarations_and_meaning",
                                                      "declaration_change_is_unequal", "meaning_change_is_unequal",
-                                                     "different_declarations_or_meaning_different_text", "reparse_equal"}), ("harness.agents.c20_edge", 3000, 25000)
+                                                     "different_declarations_or_meaning_different_text", "reparse_equal"}), ("harness.agents.c20_edge", 3000, 25000), ("harness.agents.c20_scale", 1600, 8000)
         ],
         trusted=[
             STD_TRUST,
